@@ -144,6 +144,8 @@ pub struct Stats {
     pub sample_classes: BTreeSet<String>,
     pub known: BTreeMap<String, u64>,
     pub excluded: u64,
+    /// cases whose scenario could not be set up (see `SKIP`)
+    pub skipped: u64,
 }
 impl Stats {
     fn absorb(&mut self, log: CaseLog) {
@@ -177,6 +179,7 @@ impl Stats {
             *self.known.entry(k).or_insert(0) += v;
         }
         self.excluded += o.excluded;
+        self.skipped += o.skipped;
         for s in o.samples {
             if self.samples.len() < 12 {
                 self.samples.push(s);
@@ -239,6 +242,25 @@ pub fn guarded<T>(f: impl FnOnce() -> T) -> Result<T, String> {
 /// An oracle error starting with this prefix means "the harness's assumption about the code's shape broke",
 /// which is reported as inconclusive (exit 2), never as a violation.
 pub const INCONCLUSIVE: &str = "INCONCLUSIVE:";
+/// Prefix of an oracle result that means: the SCENARIO of this case could not be set up because of something that is another
+/// property's subject (the prover refused or panicked on a valid witness, an honest proof was rejected: completeness, C01).
+/// The case is counted as skipped, not as a violation of the property being checked; if most cases of a run end like this the
+/// run is inconclusive (exit 2), never "held".
+pub const SKIP: &str = "SKIP:";
+
+/// `map_err` adaptor for a set-up call (constructor, commitment, ..) that has to succeed for the scenario to exist
+pub fn skip_err<E: Debug>(e: E) -> String {
+    format!("{} a set-up call failed (constructors are C17's subject, proving and accepting honest proofs C01's): {:?}", SKIP, e)
+}
+
+/// Unwrap a set-up step (`guarded(|| ..)` around a library call that has to succeed for the scenario to exist).
+pub fn setup<T, E: Debug>(r: Result<Result<T, E>, String>, what: &str) -> Result<T, String> {
+    match r {
+        Ok(Ok(t)) => Ok(t),
+        Ok(Err(e)) => Err(format!("{} {}: {:?}", SKIP, what, e)),
+        Err(p) => Err(format!("{} {}: {}", SKIP, what, p)),
+    }
+}
 
 /// One unit of sharded work: either `cases` random cases from `strat(None)`, or one case per fixed item from
 /// `strat(Some(item))`.
@@ -287,6 +309,15 @@ where
                                 Ok(()) => {
                                     if !failed.get() {
                                         stats_cell.borrow_mut().absorb(log);
+                                    }
+                                    Ok(())
+                                },
+                                Err(m) if m.starts_with(SKIP) => {
+                                    if !failed.get() {
+                                        let mut st = stats_cell.borrow_mut();
+                                        st.skipped += 1;
+                                        let what: String = m[SKIP.len()..].split(':').next().unwrap_or("").trim().chars().take(80).collect();
+                                        *st.hist.entry(format!("skipped(set-up failed, another property's subject):{}", what)).or_insert(0) += 1;
                                     }
                                     Ok(())
                                 },
@@ -475,6 +506,15 @@ pub fn run_property(ctx: &RunCtx, def: &PropertyDef, only_sub: Option<&str>) -> 
         eprintln!("  sub={} reason={}", v.sub, v.reason);
         replay_paths.push(p.display().to_string());
     }
+    if total.skipped > 0 {
+        eprintln!("[{}] {} case(s) skipped because their scenario could not be set up (see class_histogram in the evidence)", ctx.property, total.skipped);
+    }
+    if total.skipped > total.evaluations / 2 + 8 {
+        inconclusive.push(format!(
+            "{} {} of the cases could not be set up (another property's failure stands in the way): nothing can be said about {}",
+            INCONCLUSIVE, total.skipped, ctx.property
+        ));
+    }
     for m in &inconclusive {
         eprintln!("INCONCLUSIVE property={} {}", ctx.property, m);
     }
@@ -499,6 +539,7 @@ pub fn run_property(ctx: &RunCtx, def: &PropertyDef, only_sub: Option<&str>) -> 
             "per_sub_check": per_sub,
             "known_finding_hits": known,
             "excluded_by_known_findings": total.excluded,
+            "skipped_set_up_failed": total.skipped,
             "inconclusive": inconclusive,
             "replays": replay_paths,
         },
@@ -558,6 +599,10 @@ pub fn replay_property(ctx: &RunCtx, def: &PropertyDef, file: &std::path::Path) 
                 Err(m) if m.starts_with(INCONCLUSIVE) => {
                     eprintln!("{}", m);
                     2
+                },
+                Err(m) if m.starts_with(SKIP) => {
+                    println!("replay: the scenario of this case cannot be set up ({}); no violation of {}", m, ctx.property);
+                    0
                 },
                 Err(m) => {
                     println!("VIOLATION property={} replay={}", ctx.property, file.display());
